@@ -23,7 +23,7 @@ from pypika_tortoise.dialects import PostgreSQLQuery, MySQLQuery, SQLLiteQuery, 
 
 LEVEL = "proof"
 THEOREMS = ["C11_field_rule", "C11_field_without_table", "C11_single_source_bare", "C11_join_qualified", "C11_aliased_source", "C11_rule_examples",
-            "C11_statement_namespace", "C11_select_list_columns", "C11_filter_clause_columns", "C11_where_columns", "C11_groupby_columns", "C11_orderby_columns"]
+            "C11_statement_namespace", "C11_select_list_columns", "C11_filter_clause_columns", "C11_where_columns", "C11_groupby_columns", "C11_orderby_columns", "C11_join_on_columns"]
 HEADER = ("From PT Require Import Base.Str Base.Codes Model.Types Ref.Lexer Ref.Qualify.\nOpen Scope N_scope.\n"
           "Definition j (d : dial) (m : bool) (cols : list colref) (stars : list str) (sql : str) : N := match c11_ok d m cols stars sql with Some true => 1 | Some false => 0 | None => 2 end.\n")
 
